@@ -28,6 +28,8 @@ type Env struct {
 	names    map[string]Val
 	phis     map[*ssa.Phi]Val
 	pre      *State
+	preBlk   *ssa.BasicBlock // block at which pre() resolves names (assert-at clauses)
+	atIdx    int             // assert-at clauses: only bindings before this instruction index of blk count
 	postPhis map[*ssa.Phi]Val
 	atLatch  bool
 	oldNames map[string]Val
@@ -131,8 +133,9 @@ func (env *Env) lookupLocal(name string) (Val, bool) {
 	if len(cands) == 0 {
 		return nil, false
 	}
-	// header phis of the enclosing loops take precedence
-	for li := fr.inLoop[env.blk]; li != nil; li = li.parent {
+	// header phis of the enclosing loops take precedence (not for assertions in the
+	// middle of a loop body: there the latest binding before the anchor counts)
+	for li := fr.inLoop[env.blk]; li != nil && env.atIdx == 0; li = li.parent {
 		for _, cb := range cands {
 			if phi, ok := cb.val.(*ssa.Phi); ok && cb.isPhi && phi.Block() == li.header {
 				if v, ok := env.phis[phi]; ok {
@@ -177,6 +180,9 @@ func (env *Env) lookupLocal(name string) (Val, bool) {
 		cb := &cands[k]
 		if cb.blk == env.blk {
 			if !cb.isPhi && !env.atLatch && cb.idx >= 0 {
+				continue
+			}
+			if env.atIdx != 0 && cb.idx >= env.atIdx && !cb.isPhi {
 				continue
 			}
 		} else if !cb.blk.Dominates(env.blk) {
@@ -653,7 +659,9 @@ func (c *Ctx) evalCall(env *Env, x *ast.CallExpr) Val {
 		n := *env
 		n.st = env.pre
 		n.atLatch = false
-		if env.postPhis != nil {
+		if env.preBlk != nil {
+			n.blk = env.preBlk
+		} else if env.postPhis != nil {
 			n.blk = env.fr.inLoop[env.blk].headerOf(env)
 		} else if li := env.fr.inLoop[env.blk]; li != nil && li.parent != nil {
 			// invariant of a nested loop: the head of the enclosing loop
